@@ -277,7 +277,8 @@ CLAIMED = {
         "proves an 19-clause invariant for every reachable state; Props/C13.lean proves for every schedule: at most one "
         "sentinel (EOSE) per Subscription object in flight or sent (C13_eose_at_most_once), the REQ outcome trichotomy "
         "NOTICE / immediate EOSE / registered with a fresh query task (C13_req_outcomes), a running query puts its stored "
-        "answer in order and then exactly one sentinel (C13_query_runs_to_eose) and is always enabled until then, the "
+        "answer in order and then exactly one sentinel (C13_query_runs_to_eose; end to end with the sender: "
+        "C13_req_answered_settled) and is always enabled until then, the "
         "sender is enabled while the queue is non-empty, the per-connection limit (C13_limit) and that a refusal at the "
         "limit leaves registry and query tasks untouched (C13_limit_refusal_intact), CLOSE/replacement remove the entry and "
         "cancel the task, a cancelled task puts no further event, and after disconnect the connection holds nothing and "
@@ -297,7 +298,9 @@ CLAIMED = {
         "pushed twice (C05_live_at_most_once); every queued or sent item was put by an object the receiving connection "
         "opened under that very name (C05_delivered_under_own_id); an object not registered at acceptance — closed, "
         "replaced, disconnected or opened later — is never pushed that event whatever happens next "
-        "(C05_only_open_at_accept); when the round has run every target was evaluated exactly once. Model/Live.lean "
+        "(C05_only_open_at_accept); when the round has run every target was evaluated exactly once; constructively, "
+        "under the settled schedule every connection's queue gains exactly one live item per registered matching "
+        "subscription (C05_settled_fanout). Model/Live.lean "
         "transcribes check_event; C05_live_complete / C05_live_sound prove strict NIP-01 reading => live match => generous "
         "reading for every filter that states a condition. Tie: real check_event vs liveMatch on generated pairs; fan-out "
         "sessions on both backends with colliding connection ids, pushes compared with 'once per open matching "
